@@ -21,6 +21,32 @@ import gtwrap.template_instantiator as instantiator
 
 from gtwrap.xml_parser.xml_parser import XMLDocParser
 
+
+def cpp_string_literal_body(text: str) -> str:
+    """
+    Escape `text` so that it can stand between double quotes in a C++ source
+    file (encoded as UTF-8) and the compiler reads back exactly `text`.
+    """
+    out = []
+    for char in text:
+        code = ord(char)
+        if char in '\\"?':
+            # `?` is escaped so that no trigraph can form
+            out.append('\\' + char)
+        elif char == '\n':
+            out.append('\\n')
+        elif char == '\r':
+            out.append('\\r')
+        elif char == '\t':
+            out.append('\\t')
+        elif code < 0x20 or code == 0x7f:
+            # exactly three octal digits: the escape cannot swallow what follows
+            out.append('\\%03o' % code)
+        else:
+            out.append(char)
+    return ''.join(out)
+
+
 class PybindWrapper:
     """
     Class to generate binding code for Pybind11 specifically.
@@ -277,9 +303,8 @@ class PybindWrapper:
                    suffix=suffix,
                    # Try to get the function's docstring from the Doxygen XML.
                    # If extract_docstring errors or fails to find a docstring, it just prints a warning.
-                   # The incantation repr(...)[1:-1].replace('"', r'\"') replaces newlines with \n 
-                   # and " with \" so that the docstring can be put into a C++ string on a single line.
-                   docstring=', "' + repr(self.xml_parser.extract_docstring(self.xml_source, cpp_class, cpp_method, method.args.names()))[1:-1].replace('"', r'\"') + '"' 
+                   # The docstring is put into a C++ string literal on a single line.
+                   docstring=', "' + cpp_string_literal_body(self.xml_parser.extract_docstring(self.xml_source, cpp_class, cpp_method, method.args.names())) + '"'
                        if self.xml_source != "" else "",
                ))
 
